@@ -24,7 +24,8 @@ Reject(what, exp, got) ==
 Keep == UNCHANGED <<tid, bad>>
 
 Rec(e) ==
-  LET new(cnt) == [t |-> e.t, o |-> e.o, d |-> e.d, cnt |-> NextCount(cnt, e.o), before |-> IF e.o = "reseterr" THEN 0 ELSE cnt,
+  LET eo == NormO(e.o, e.d)
+      new(cnt) == [t |-> e.t, o |-> eo, d |-> e.d, cnt |-> NextCount(cnt, eo), before |-> IF eo = "reseterr" THEN 0 ELSE cnt,
                    touched |-> FALSE, seen |-> TRUE]
   IN
   IF "fresh" \in DOMAIN e /\ ~e.fresh THEN Reject("restart-without-fresh-reconcile", TRUE, e.fresh)
